@@ -3,4 +3,5 @@ package times
 var vHarnesses = map[string]func(){
 	"VH_C20F": VH_C20F,
 	"VH_C20P": VH_C20P,
+	"VH_C20D": VH_C20D,
 }
